@@ -4,7 +4,7 @@
 From Coq Require Import Reals Lra List.
 From Coquelicot Require Import Coquelicot.
 From P Require Import C03_gen C03_proofs_simple C03_proofs_knowles.
-From P Require Import C15_bell C15_gen C15_model C15_proofs C15_proofs_wiring.
+From P Require Import C15_bell C15_gen C15_ref C15_model C15_proofs_fdb C15_proofs_chain C15_proofs_wiring.
 Import ListNotations.
 Open Scope R_scope.
 
@@ -117,8 +117,13 @@ Example contract_satisfiable :
   init_T_1 1 (exp (fst (span_T (fun x => x) 0 1))).
 Proof.
   split; [|split].
-  - intros x _. split; [|split; [|split; [|split]]]; try (auto_derive; [exact I|ring]); try lra. reflexivity.
-  - intros x _. unfold ivp_rhsT_1. auto_derive; [exact I|]. field.
+  - intros x _. split; [|split; [|split; [|split]]].
+    + auto_derive; [exact I|ring].
+    + auto_derive; [exact I|ring].
+    + auto_derive; [exact I|ring].
+    + lra.
+    + reflexivity.
+  - intros x _. unfold ivp_rhsT_1. evar_last; [apply is_derive_exp|]. field.
   - unfold init_T_1, span_T. cbn [fst]. apply exp_0.
 Qed.
 Example Becke_instance_nonvacuous : 0 < 3 / 2 /\ Dom (1 / 4) /\ (forall x, Dom x -> (fun t => 2 + t) x <> 0).
